@@ -10,13 +10,13 @@ use std::process::{Command, Stdio};
 use std::time::Duration;
 
 pub fn bita_bin() -> PathBuf {
-    PathBuf::from(std::env::var("BITA_BIN").unwrap_or_else(|_| "/verif/target/cli/debug/bita".into()))
+    PathBuf::from(std::env::var("BITA_BIN").unwrap_or_else(|_| format!("{}/target/cli/debug/bita", crate::engine::verif_root())))
 }
 pub fn bita_hook_bin() -> PathBuf {
-    PathBuf::from(std::env::var("BITA_HOOK_BIN").unwrap_or_else(|_| "/verif/target/cli-hooks/debug/bita".into()))
+    PathBuf::from(std::env::var("BITA_HOOK_BIN").unwrap_or_else(|_| format!("{}/target/cli-hooks/debug/bita", crate::engine::verif_root())))
 }
 pub fn iohook_so() -> PathBuf {
-    PathBuf::from(std::env::var("IOHOOK_SO").unwrap_or_else(|_| "/verif/target/iohook.so".into()))
+    PathBuf::from(std::env::var("IOHOOK_SO").unwrap_or_else(|_| format!("{}/target/iohook.so", crate::engine::verif_root())))
 }
 
 #[derive(Debug, Clone)]
